@@ -36,9 +36,11 @@ Proof.
   rewrite (alookup_aset_same Nat.eqb d e (nat_eqb_refl_l d)). reflexivity.
 Qed.
 
+(* Sequence.copy() copies data, sequencing and channel settings; the copy's name is empty (the name is part of no
+   description and of no forged output - only outputForSEQXFile reports it) *)
 Lemma copy_seq_register : forall st r d s,
-  getS st r = Ok s -> getS (fst (exec st (SCopy r d))) d = Ok s.
+  getS st r = Ok s -> getS (fst (exec st (SCopy r d))) d = Ok (mkSeq (sdata s) (sseq s) (sspecs s) []).
 Proof.
   intros st r d s Hg. cbn [exec]. rewrite Hg. cbn [fst]. unfold getS, putS. cbn [sqs].
-  rewrite (alookup_aset_same Nat.eqb d s (nat_eqb_refl_l d)). reflexivity.
+  rewrite (alookup_aset_same Nat.eqb d _ (nat_eqb_refl_l d)). reflexivity.
 Qed.
